@@ -11,6 +11,7 @@ package amd64
 // Case line:   <id> <offBase> <ptr>
 //	ptr    := S <addend> | A <self> <addend> <addend>        (A = matched 64-bit Iadd living in vreg <self>)
 //	addend := r64 <r> | k64 <c> <matched> | k32 <c> <matched> | ux r <r> | ux c <c> | sx r <r> | sx c <c>
+//	          | (ux|sx) i (shl|add|mul) <r> <c> <self>      (extend of a matched 32-bit instruction living in vreg <self>)
 //	          | shl (xr <r> | xc <c>) (ac <amount> | ar <r>)
 // Result line: <id> imm=<u32> base=<reg> index=<reg>*<shift>|-        or   <id> panic
 //	reg    := v<r> (an input vreg) | t<constant> (fresh vreg loaded with a constant) | s<r>:<k> (input vreg shifted in place)
@@ -100,9 +101,28 @@ func (v *verifAmodeBuilder) addend() ssa.Value {
 		return v.constant(c, false, v.num() != 0)
 	case "ux", "sx":
 		var in ssa.Value
-		if v.next() == "r" {
+		switch v.next() {
+		case "r":
 			in = v.param(v.num(), ssa.TypeI32)
-		} else {
+		case "i":
+			// a matched (single use) 32-bit instruction <op>(param r, Iconst32 c) whose result lives in vreg <self>
+			op := v.next()
+			x := v.param(v.num(), ssa.TypeI32)
+			c := v.constant(v.num(), false, true)
+			i := v.b.AllocateInstruction()
+			switch op {
+			case "shl":
+				i.AsIshl(x, c)
+			case "add":
+				i.AsIadd(x, c)
+			case "mul":
+				i.AsImul(x, c)
+			default:
+				panic("verif: bad 32-bit instruction " + op)
+			}
+			in = v.instr(i)
+			v.ctx.vRegMap[in] = regalloc.VReg(verifInputVRegBase + v.num()).SetRegType(regalloc.RegTypeInt)
+		default:
 			in = v.constant(v.num(), false, true)
 		}
 		i := v.b.AllocateInstruction()
